@@ -7,7 +7,7 @@
    failing ones included: the two sides then report the same failure).  [of_list l] is a fully
    evaluated list seen as a stream, [collect] is List.Eval/ToSlice. *)
 From P2 Require Import Base.Prelude Sem.Num Sem.Syntax Sem.Ops Sem.Lib Lib.Builtins Lib.ListLib
-  Lib.BuiltinsProofs Lib.GroupProofs Lib.StringProofs Lib.MapProofs Lib.PipelineProofs Run.C07Run Generated.ValueMethods.
+  Lib.BuiltinsProofs Lib.GroupProofs Lib.StringProofs Lib.MapProofs Lib.MovingProofs Lib.PipelineProofs Run.C07Run Generated.ValueMethods.
 From Coq Require Import Permutation Sorted.
 Local Open Scope Z_scope.
 
@@ -314,6 +314,31 @@ Theorem C07_map_specs :
              length (mm_list m) = length m).
 Proof. exact (conj map_get_spec (conj map_size_spec (conj map_isAvail_spec (conj map_put_spec (conj map_merge_spec (conj map_replace_spec (conj map_map_spec (conj map_accept_spec (conj map_combine_spec map_list_spec))))))))). Qed.
 
+(* movingWindow: for keys that do not decrease along the list the Go loop (start index only moves
+   forward) answers, for every item, all items up to it whose key is within 1 of its key.  Keys in any
+   ordered type K embedded into the floats such that the exact comparison decides "more than 1 apart"
+   (far), with: an item further left is at least as far, and what is too far from an earlier key is too
+   far from a later one.  The full statement (any key order) is refuted: keys 0, 2, 1. *)
+Theorem C07_movingWindow_nondecreasing_partial :
+  forall (K : Type) (far : K -> K -> bool) (inj : K -> fl),
+  (forall a b, far_apart (inj a) (inj b) = Ok (far a b)) ->
+  forall leK : K -> K -> bool,
+  (forall a, far a a = false) ->
+  (forall a b c, leK a b = true -> leK b c = true -> far c b = true -> far c a = true) ->
+  (forall a b c, leK a b = true -> leK b c = true -> far b a = true -> far c a = true) ->
+  forall kl : list (K * value), sorted_keys leK kl ->
+  mw_loop [] (map (injw inj) kl) = Ok (d_movingWindow (close far) kl).
+Proof. exact (@movingWindow_nondecreasing). Qed.
+
+(* the hypotheses are satisfiable: integer keys with |a - b| > 1 *)
+Theorem C07_movingWindow_int_keys : forall kl : list (Z * value), sorted_keys Z.leb kl ->
+  pw_loop farZ [] kl = d_movingWindow (close farZ) kl.
+Proof. exact movingWindow_int_keys. Qed.
+
+Theorem C07_movingWindow_any_order_refuted :
+  exists l, m_movingWindow (fun x => Ok x) l <> doc_windows (fun x => Ok x) l.
+Proof. exact movingWindow_decreasing_refuted. Qed.
+
 (* non-vacuity: a pipeline with a failing callback behind a truncating stage, and the repaired corners *)
 Example C07_nonvacuous_lazy :
   collect (s_top 1 (s_map (fun x => match x with VInt 1 => Ok x | _ => Err None end) (of_list [VInt 1; VInt 2])))
@@ -353,3 +378,6 @@ Print Assumptions C07_check_groups_complete.
 Print Assumptions C07_minMax_spec.
 Print Assumptions C07_string_specs2.
 Print Assumptions C07_map_specs.
+Print Assumptions C07_movingWindow_nondecreasing_partial.
+Print Assumptions C07_movingWindow_int_keys.
+Print Assumptions C07_movingWindow_any_order_refuted.
